@@ -14,21 +14,29 @@
 (*                 reference implementation (interoperability)               *)
 (*         noout   "yes"/"no"/"na": a failed call returned no output         *)
 (*  end                                                                      *)
+(* A case with seq (history) has exactly two calls: the call on its own and  *)
+(* the same call after unrelated calls that used ANOTHER key with the SAME   *)
+(* key id; law: same case, same result class whatever preceded it.           *)
 EXTENDS CryptoDispatch
 
 Bad(why) == [bad |-> TRUE, why |-> why]
 IsBad(c) == c.bad
 
-CaseOf(e) == C(e.fn, e.alg, e.keyKind, e.keyBits, e.nonceLen, e.tagLen, e.inLen, e.aadLen, e.mut)
+CaseOf(e) ==
+  LET b == C(e.fn, e.alg, e.keyKind, e.keyBits, e.nonceLen, e.tagLen, e.inLen, e.aadLen, e.mut) IN
+  IF e.mut = "pad" THEN b @@ [padV |-> e.padV, padTail |-> e.padTail]
+  ELSE IF "seq" \in DOMAIN e THEN b @@ [seq |-> e.seq]
+  ELSE b
 
 CReset(e) ==
   [bad |-> FALSE, why |-> "", cs |-> CaseOf(e), compLen |-> e.compLen, full |-> e.full,
-   calls |-> 0, last |-> -1, distinct |-> 0]
+   calls |-> 0, last |-> -1, distinct |-> 0, first |-> <<>>]
 
 (* classification of an inadmissible outcome (the finding class) *)
 Why(cs, o) ==
   LET sup == cs.alg \in SupportedFor(cs.fn) IN
   IF o = "panic" THEN "panic"
+  ELSE IF cs.mut = "pad" THEN (IF o = "ok" THEN "malformed-padding-accepted" ELSE IF PadValid(cs) THEN "valid-rejected" ELSE "wrong-error-class")
   ELSE IF cs.fn \in GenericFns /\ o = "unsupported" /\ sup THEN "generic-dispatch"
   ELSE IF sup /\ Row(cs.alg).fam = "ecdsa" /\ Base(cs.keyKind) = "ec" /\ cs.keyBits \notin Row(cs.alg).keyBits /\ o = "ok"
        THEN "ecdsa-curve-mismatch"
@@ -38,17 +46,20 @@ Why(cs, o) ==
   ELSE "wrong-error-class"
 
 CCall(c, e) ==
-  LET cs == c.cs flip == cs.mut \in Flips IN
-  IF e.outcome \notin Allowed(cs) THEN Bad(Why(cs, e.outcome))
+  LET cs == c.cs flip == cs.mut \in Flips seq == IsSeq(cs) res == <<e.outcome, e.rt, e.ref>> IN
+  IF seq /\ c.calls = 1 /\ res # c.first THEN Bad("history-dependent")
+  ELSE IF e.outcome \notin Allowed(cs) THEN Bad(Why(cs, e.outcome))
   ELSE IF e.outcome = "ok" /\ e.rt = "no" THEN Bad("roundtrip-failed")
   ELSE IF e.ref = "no" THEN Bad("reference-disagreement")
   ELSE IF e.outcome # "ok" /\ e.noout = "no" THEN Bad("output-on-error")
-  ELSE IF ~flip /\ c.calls >= 1 THEN Bad("harness: more than one call")
+  ELSE IF ~flip /\ c.calls >= (IF seq THEN 2 ELSE 1) THEN Bad("harness: more than one call")
   ELSE IF flip /\ (e.idx < c.last \/ e.idx >= c.compLen) THEN Bad("harness: byte position out of order")
-  ELSE [c EXCEPT !.calls = @ + 1, !.last = e.idx, !.distinct = IF e.idx > c.last THEN @ + 1 ELSE @]
+  ELSE [c EXCEPT !.calls = @ + 1, !.last = e.idx, !.distinct = IF e.idx > c.last THEN @ + 1 ELSE @,
+                 !.first = IF c.calls = 0 THEN res ELSE @]
 
 CEnd(c) ==
   IF c.calls = 0 THEN Bad("harness: case not executed")
+  ELSE IF IsSeq(c.cs) /\ c.calls # 2 THEN Bad("harness: history case needs two calls")
   ELSE IF c.cs.mut \in Flips /\ c.full /\ c.distinct # c.compLen THEN Bad("harness: byte positions missing")
   ELSE c
 
@@ -60,7 +71,7 @@ CList(e) ==
                 [] e.fn = "SupportedSignatureAlgorithms" -> SigNames
       got == {e.names[k] : k \in 1..Len(e.names)}
   IN IF got # want \/ Len(e.names) # Cardinality(want) THEN Bad("supported-list-mismatch")
-     ELSE [bad |-> FALSE, why |-> "", cs |-> [mut |-> "none"], compLen |-> 1, full |-> FALSE, calls |-> 1, last |-> 0, distinct |-> 1]
+     ELSE [bad |-> FALSE, why |-> "", cs |-> [mut |-> "none"], compLen |-> 1, full |-> FALSE, calls |-> 1, last |-> 0, distinct |-> 1, first |-> <<>>]
 
 CNext(c, e) ==
   IF e.ev = "reset" THEN CReset(e)
